@@ -47,6 +47,9 @@ def tasks(tier):
         ts.append(("load cases dim=%d" % dim, "run_included", dict(modname="c08", fname="run_loadcases", kwargs=dict(dim=dim), oid="C09.O3",
                                                              why="a homogeneous uniaxial / biaxial state needs the load case to prescribe exactly these unknowns")))
     ts.append(("characteristic curve", "run_curve_job", {}))
+    # a displacement patch test prescribes every boundary unknown; on a mesh without interior points no unknown is free
+    ts.append(("partitioned solve, degenerate partitions", "run_included", dict(modname="c07", fname="run_partition_edges", kwargs={}, oid="C09.O4",
+                                                                             why="the patch test on a mesh without interior points has no free unknown: the solve must still set the prescribed increments")))
     return ts
 
 
